@@ -233,6 +233,7 @@ def run(ctx, tier):
     if not r_enf.instances:
         r_enf.inst('no enforce_bounds uses an early-return bounds test', ok=True, nontrivial=False)
     r_canon = _canon(ctx, prim)
+    _unit(ctx, prim, r_canon)
     r_acc = _accept(ctx, prim)
     return [r_lost, r_same, r_range, r_enf, r_canon, r_acc]
 
@@ -857,3 +858,82 @@ def _accept(ctx, prim):
     if n_sp < 1:
         r.violations.append(Violation('C11', 'C11.accept', 'oxmpl', 'floor', 'no interval-bounded space found (floor 1)'))
     return r
+
+
+def _unit(ctx, prim, r):
+    """cone spaces: every value enforce_bounds writes into the state is a unit quaternion by construction: the Ok payload of
+    the state's own normalise(), a literal / constructor whose components have unit norm (identity), the stored centre, or
+    the output of the space's interpolate.  `unwrap_or_default()` / `Default::default()` (the zero quaternion) and other
+    values are reported: enforcing would leave a non-unit rotation."""
+    for adt, bty in prim:
+        if bty.startswith('std::vec::Vec<') or bty == '(f64, f64)':
+            continue
+        ms = space_methods(ctx, adt)
+        eb = ms.get('enforce_bounds')
+        if eb is None:
+            continue
+        fn = ctx.fn(eb)
+        probs = []
+        n = 0
+
+        def unit_literal(node):
+            if node[0] != 'agg' or len(node[3]) != 4:
+                return False
+            vals = [const_float(t) for (_f, t) in node[3]]
+            return None not in vals and abs(sum(v * v for v in vals) - 1.0) < 1e-12
+
+        def ok_value(node, depth=0):
+            k = node[0]
+            if k == 'clone':
+                return all(ok_value(m, depth) for m in node[1])
+            if k == 'unwrap':
+                return all(m[0] == 'call' and m[1].rsplit('::', 1)[-1] in ('normalise', 'normalize') for m in node[1])
+            if k == 'agg':
+                return unit_literal(node)
+            if k == 'field' and node[2] == '0' and self_field(node[1], 'bounds'):
+                return True             # the stored centre (C12: normalised by the constructor)
+            if k == 'out' and node[1].endswith('::interpolate'):
+                return True
+            if k == 'call' and node[1].startswith(('std::result::Result::<T, E>::', 'std::option::Option::<T>::')) and node[2]:
+                m_ = node[1].rsplit('::', 1)[1]
+                recv_ok = all(x[0] == 'call' and x[1].rsplit('::', 1)[-1] in ('normalise', 'normalize') for x in node[2][0])
+                if m_ == 'unwrap_or' and len(node[2]) == 2:
+                    return recv_ok and all(ok_value(x, depth) for x in node[2][1])
+                if m_ == 'unwrap_or_else' and len(node[2]) == 2:
+                    oks = []
+                    for x in node[2][1]:
+                        cb_ = ctx.core.body(x[1]) if x[0] == 'closure' else None
+                        if cb_ is None:
+                            return False
+                        f3 = ctx.fn(cb_)
+                        rt3 = set()
+                        for rb in f3.return_blocks():
+                            rt3 |= f3.local_terms(0, (rb, f3.nstmts(rb)))
+                        oks.append(bool(rt3) and all(ok_value(y, depth + 1) for y in rt3))
+                    return recv_ok and bool(oks) and all(oks)
+                if m_ in ('unwrap', 'expect'):
+                    return recv_ok
+                return False
+            if k == 'call' and depth < 3:
+                cb = ctx.core.body(node[1])
+                if cb is not None and cb.kind in ('Fn', 'AssocFn') and not cb.arg_count:
+                    f2 = ctx.fn(cb)
+                    rt = set()
+                    for rb in f2.return_blocks():
+                        rt |= f2.local_terms(0, (rb, f2.nstmts(rb)))
+                    return bool(rt) and all(ok_value(m, depth + 1) for m in rt)
+            return False
+        for bi, blk in enumerate(eb.blocks):
+            if blk['cleanup']:
+                continue
+            for si, st in enumerate(blk['stmts']):
+                if st['k'] != 'assign' or st['place']['l'] != 2 or st['place']['p'] != ['deref']:
+                    continue
+                n += 1
+                for node in fn.rvalue_terms(st['rv'], (bi, si)):
+                    if not ok_value(node):
+                        probs.append('enforce_bounds can store %s into the state: not the normalised state, a unit literal, the stored centre or an '
+                                     'interpolation result (e.g. `unwrap_or_default()` yields the zero quaternion)' % fmt_terms(T(node))[:70])
+        r.inst('%s: every rotation enforce_bounds writes is unit by construction (%d whole-state stores)' % (eb.path, n), ok=not probs, site=eb.loc(0))
+        for o, pr in enumerate(dict.fromkeys(probs)):
+            r.violations.append(Violation('C11', 'C11.canon', eb.path, 'unit', pr, loc=eb.loc(0), ordinal=o))
